@@ -307,4 +307,34 @@ theorem tied_root (scr : Screen) :
     rw [rect_has] at h
     exact ⟨h.1, h.2.2.1⟩
 
+/-- The window App.Run hands to render for the root surface (`win.New(0,0,W,H)` of the screen
+window) is tied to screen rectangle ∩ root rectangle. -/
+theorem tied_rootWin (scr : Screen) (s : Surface) :
+    Tied scr (rootWin s (Win.ofScreen scr)) (0 + 0) (0 + 0)
+      (({ x0 := 0, y0 := 0, x1 := scr.cols, y1 := scr.rows } : Rect).inter
+        { x0 := 0 + 0, y0 := 0 + 0, x1 := 0 + 0 + s.w.toNat, y1 := 0 + 0 + s.h.toNat }) :=
+  tied_child (tied_root scr) 0 0 s.w.toNat s.h.toNat
+
+/-! ### the cleared screen of a frame -/
+
+theorem wf_applyOps (win : Win) (ops : List Op) (s : Screen) (hwf : s.WF) : (applyOps win s ops).WF := by
+  induction ops generalizing s with
+  | nil => exact hwf
+  | cons o rest ih =>
+    simp only [applyOps, List.foldl_cons]
+    exact ih _ (wf_put win s hwf o.col o.row (.cell o.cell))
+
+/-- `win.Clear()` on the whole screen: same dimensions, well-formed, every cell the blank cell. -/
+theorem clear_screen (scr : Screen) (hwf : scr.WF) :
+    (clear (Win.ofScreen scr) scr).WF ∧ (clear (Win.ofScreen scr) scr).cols = scr.cols ∧
+    (clear (Win.ofScreen scr) scr).rows = scr.rows ∧
+    ∀ x y, inScreen scr x y → (clear (Win.ofScreen scr) scr).get x y = some clearCell := by
+  have hd := applyOps_dims (Win.ofScreen scr) (fillOps (Win.ofScreen scr) clearCell) scr
+  refine ⟨wf_applyOps _ _ _ hwf, hd.1, hd.2, ?_⟩
+  intro x y hin
+  apply fill_reaches (Win.ofScreen scr) scr hwf clearCell x y
+  refine ((tied_root scr).vis x y).2 ((rect_has _ x y).2 ?_)
+  unfold inScreen at hin
+  exact ⟨hin.1, hin.2.1, hin.2.2.1, hin.2.2.2⟩
+
 end VaxisModel.Lemmas.SurfacePaintSpec
